@@ -15,7 +15,7 @@ def main():
 
     paths = json.load(sys.stdin)
     out = {}
-    for path in paths:
+    for n_done, path in enumerate(paths):
         rec = {}
         uri = path + "#/"
         try:
@@ -42,6 +42,27 @@ def main():
                 rec["json"] = "exc:" + type(exc).__name__
         except Exception as exc:  # noqa: BLE001
             rec["names"] = "exc:" + type(exc).__name__
+        if n_done < 3:
+            # the console entry point writing to a file (the way the tool is run): the file's bytes
+            import os
+            import tempfile
+            import statham.__main__ as cli
+            target = os.path.join(tempfile.mkdtemp(prefix="statham-c09-cli-"), "models.py")
+            saved = sys.argv
+            try:
+                cli.argv = ["statham", "--input", uri, "--output", target]
+                sys.argv = cli.argv
+                cli.entry_point()
+                with open(target, encoding="utf8") as fh:
+                    rec["cli_file"] = fh.read()
+            except SystemExit as exc:
+                rec["cli_file"] = f"exit:{exc.code}"
+            except Exception as exc:  # noqa: BLE001
+                rec["cli_file"] = "exc:" + type(exc).__name__
+            finally:
+                sys.argv = saved
+                import shutil
+                shutil.rmtree(os.path.dirname(target), ignore_errors=True)
         out[path] = rec
     json.dump(out, sys.stdout)
 
